@@ -27,6 +27,8 @@ func (c *Ctx) unitFuncs() []*ssa.Function {
 	return out
 }
 
+var foldFlagRe = regexp.MustCompile(`\(\?[a-zA-Z]*i[a-zA-Z]*(-[a-zA-Z]*)?[:)]`)
+
 // R-GRAMMAR: the regular-expression templates of the unit parser contain no wildcard, and every named count group
 // matches at least one character and only digits (plus a literal decimal point).
 func (c *Ctx) ruleGrammar(rule string) {
@@ -46,55 +48,93 @@ func (c *Ctx) ruleGrammar(rule string) {
 		if !compiles {
 			continue
 		}
+		// the grammar is case-sensitive: unit names are data (a plugin's definition may declare mW and MW, b and B), and
+		// with case folding the name of one unit matches another unit's group - which of them gets the count is then
+		// decided by the order of the groups, not by the name
+		{
+			kf := key(rule, c.M.Key(fn), "the grammar is compiled without the case-folding flag")
+			folded := ""
+			for _, b := range fn.Blocks {
+				for _, in := range b.Instrs {
+					var ops []*ssa.Value
+					for _, op := range in.Operands(ops) {
+						if op == nil || *op == nil {
+							continue
+						}
+						if str, ok := core.ConstString(*op); ok && foldFlagRe.MatchString(str) {
+							folded = c.M.InstrPos(in)
+						}
+					}
+				}
+			}
+			n++
+			if folded == "" {
+				c.R.Ok(rule, kf, c.M.Pos(fn.Pos()), "flags of the unit grammar", "no constant text of the function that compiles the grammar sets the flag i")
+			} else {
+				c.R.Bad(rule, kf, folded, "the unit grammar is matched without regard to case",
+					"a definition whose unit names differ only in case (mW / MW, b / B) is parsed by the order of the groups instead of by the names: '5MW' is read as 5 of the base unit mW - a wrong number instead of the sum of count x multiplier")
+			}
+		}
 		idx := 0
-		for _, b := range fn.Blocks {
-			for _, in := range b.Instrs {
-				call, ok := in.(*ssa.Call)
-				if !ok || core.StaticCalleeName(&call.Call) != "fmt.Sprintf" {
-					continue
-				}
-				tmpl, ok := core.ConstString(call.Call.Args[0])
-				if !ok || !strings.Contains(tmpl, "(?P<") {
-					continue
-				}
-				idx++
-				n++
-				k := key(rule, c.M.Key(fn), sprintf("regexp template #%d", idx))
-				pos := c.M.InstrPos(call)
-				// substitute verbs: %s stands for a QuoteMeta'd literal, %d for digits
-				src := strings.NewReplacer("%s", "X", "%d", "1").Replace(tmpl)
-				re, err := syntax.Parse(src, syntax.Perl)
-				if err != nil {
-					c.R.Bad(rule, k, pos, "regexp template does not parse", err.Error())
-					continue
-				}
-				if bad := grammarProblem(re); bad != "" {
-					c.R.Bad(rule, k, pos, "unit grammar template: "+bad,
-						"the grammar is digits, optional spaces and declared unit names; a wildcard lets one group swallow unit names, an empty-matching count group lets a bare unit name parse as a number")
-				} else {
-					c.R.Ok(rule, k, pos, "unit grammar template", "parsed with regexp/syntax: no any-char operator; every named count group needs at least one digit and matches only digits and a literal '.'")
-				}
-				// the %s arguments must be quoted literals
-				for i, a := range call.Call.Args[1:] {
-					_ = i
-					if sl, ok := a.(*ssa.Slice); ok {
-						if al, ok := sl.X.(*ssa.Alloc); ok {
-							for _, r := range *al.Referrers() {
-								ia, ok := r.(*ssa.IndexAddr)
-								if !ok {
-									continue
-								}
-								for _, r2 := range *ia.Referrers() {
-									st, ok := r2.(*ssa.Store)
+		for _, use := range c.grammarTemplates(fn) {
+			call, tmpl := use.call, use.tmpl
+			{
+				{
+					idx++
+					n++
+					k := key(rule, c.M.Key(fn), sprintf("regexp template #%d", idx))
+					pos := c.M.InstrPos(call)
+					// substitute verbs: %s stands for a QuoteMeta'd literal, %d for digits (a verb that is filled from a
+					// parameter of a helper has been replaced by what the call site hands in)
+					src := strings.NewReplacer("%s", "X", "%d", "1").Replace(tmpl)
+					re, err := syntax.Parse(src, syntax.Perl)
+					if err != nil {
+						c.R.Bad(rule, k, pos, "regexp template does not parse", err.Error())
+						continue
+					}
+					if bad := grammarProblem(re); bad != "" {
+						c.R.Bad(rule, k, pos, "unit grammar template: "+bad,
+							"the grammar is digits, optional spaces and declared unit names; a wildcard lets one group swallow unit names, an empty-matching count group lets a bare unit name parse as a number")
+					} else {
+						c.R.Ok(rule, k, pos, "unit grammar template", "parsed with regexp/syntax: no any-char operator; every named count group needs at least one digit and matches only digits and a literal '.'")
+					}
+					// only one unit of a grammar - the base unit - may be written without its name: a template whose name group can
+					// match the empty string is instantiated once, not in the loop over the multipliers (a count without a name
+					// would otherwise be taken for whichever unit's group comes first)
+					kn := key(rule, c.M.Key(fn), sprintf("regexp template #%d: the unit name can be left out for one unit at most", idx))
+					if !optionalName(re) {
+						c.R.Ok(rule, kn, pos, "unit grammar template", "the group of unit names cannot match the empty string")
+					} else if !use.inLoop {
+						c.R.Ok(rule, kn, pos, "unit grammar template", "the group of unit names can match the empty string, and the template is instantiated once (outside every loop): the base unit")
+					} else {
+						c.R.Bad(rule, kn, pos, "every unit of the grammar can be written without its name",
+							"the template whose name group can match the empty string is instantiated in a loop: a count without a unit name, which only the base unit may have, is matched by the first group that comes - '1 30s' parses as a number instead of being rejected")
+					}
+					// the %s arguments must be quoted literals
+					if use.site != nil {
+						continue
+					}
+					for i, a := range call.Call.Args[1:] {
+						_ = i
+						if sl, ok := a.(*ssa.Slice); ok {
+							if al, ok := sl.X.(*ssa.Alloc); ok {
+								for _, r := range *al.Referrers() {
+									ia, ok := r.(*ssa.IndexAddr)
 									if !ok {
 										continue
 									}
-									v := core.Unwrap(st.Val)
-									if vc, ok := v.(*ssa.Call); ok && core.StaticCalleeName(&vc.Call) == "regexp.QuoteMeta" {
-										continue
+									for _, r2 := range *ia.Referrers() {
+										st, ok := r2.(*ssa.Store)
+										if !ok {
+											continue
+										}
+										v := core.Unwrap(st.Val)
+										if vc, ok := v.(*ssa.Call); ok && core.StaticCalleeName(&vc.Call) == "regexp.QuoteMeta" {
+											continue
+										}
+										kq := key(rule, c.M.Key(fn), sprintf("regexp template #%d: interpolated text is quoted", idx))
+										c.R.Bad(rule, kq, pos, "text interpolated into the grammar without regexp.QuoteMeta", "unit names with regexp metacharacters change the grammar")
 									}
-									kq := key(rule, c.M.Key(fn), sprintf("regexp template #%d: interpolated text is quoted", idx))
-									c.R.Bad(rule, kq, pos, "text interpolated into the grammar without regexp.QuoteMeta", "unit names with regexp metacharacters change the grammar")
 								}
 							}
 						}
@@ -273,6 +313,136 @@ func (c *Ctx) groupNameClause(rule string) {
 			}
 		}
 	}
+}
+
+// grammarUse is one instantiation of a template of the unit grammar: the Sprintf call, the template with the verbs
+// that a helper's call site fills replaced by what the site hands in, and whether the instantiation happens in a loop.
+type grammarUse struct {
+	call   *ssa.Call
+	site   *ssa.Call // the call of the helper that holds the Sprintf (nil: the Sprintf is in the compiling function)
+	tmpl   string
+	inLoop bool
+}
+
+// grammarTemplates: the templates that make up the grammar compiled by fn - the Sprintf calls of fn itself, and those of
+// the helpers of the units file that fn calls (one use per call site).
+func (c *Ctx) grammarTemplates(fn *ssa.Function) []grammarUse {
+	sprintfs := func(f *ssa.Function) []*ssa.Call {
+		var out []*ssa.Call
+		for _, b := range f.Blocks {
+			for _, in := range b.Instrs {
+				if call, ok := in.(*ssa.Call); ok && core.StaticCalleeName(&call.Call) == "fmt.Sprintf" {
+					if tmpl, ok := core.ConstString(call.Call.Args[0]); ok && strings.Contains(tmpl, "(?P<") {
+						out = append(out, call)
+					}
+				}
+			}
+		}
+		return out
+	}
+	var out []grammarUse
+	for _, call := range sprintfs(fn) {
+		tmpl, _ := core.ConstString(call.Call.Args[0])
+		out = append(out, grammarUse{call: call, tmpl: tmpl, inLoop: blockInLoop(call.Block())})
+	}
+	inFile := map[*ssa.Function]bool{}
+	for _, f := range c.unitFuncs() {
+		inFile[f] = true
+	}
+	for _, b := range fn.Blocks {
+		for _, in := range b.Instrs {
+			site, ok := in.(*ssa.Call)
+			if !ok {
+				continue
+			}
+			h := core.StaticBody(&site.Call)
+			if h == nil || h == fn || !inFile[h] {
+				continue
+			}
+			for _, call := range sprintfs(h) {
+				tmpl, _ := core.ConstString(call.Call.Args[0])
+				// the values of the verbs, in order
+				var vals []ssa.Value
+				if len(call.Call.Args) > 1 {
+					if sl, ok := call.Call.Args[1].(*ssa.Slice); ok {
+						if al, ok := sl.X.(*ssa.Alloc); ok && al.Referrers() != nil {
+							byIdx := map[int64]ssa.Value{}
+							for _, r := range *al.Referrers() {
+								ia, ok := r.(*ssa.IndexAddr)
+								if !ok || ia.Referrers() == nil {
+									continue
+								}
+								i, isConst := core.ConstInt(ia.Index)
+								if !isConst {
+									continue
+								}
+								for _, r2 := range *ia.Referrers() {
+									if st, ok := r2.(*ssa.Store); ok {
+										byIdx[i] = core.Unwrap(st.Val)
+									}
+								}
+							}
+							for i := int64(0); i < int64(len(byIdx)); i++ {
+								vals = append(vals, byIdx[i])
+							}
+						}
+					}
+				}
+				// replace, verb by verb, those that are filled from a parameter with the constant the site hands in
+				var sb strings.Builder
+				vi := 0
+				for i := 0; i < len(tmpl); i++ {
+					if tmpl[i] == '%' && i+1 < len(tmpl) && (tmpl[i+1] == 's' || tmpl[i+1] == 'd') {
+						repl := tmpl[i : i+2]
+						if vi < len(vals) {
+							v := vals[vi]
+							if mi, ok := v.(*ssa.MakeInterface); ok {
+								v = mi.X
+							}
+							if prm, ok := v.(*ssa.Parameter); ok {
+								for pi, q := range h.Params {
+									if q == prm && pi < len(site.Call.Args) {
+										if str, ok := core.ConstString(site.Call.Args[pi]); ok && tmpl[i+1] == 's' {
+											repl = str
+										}
+									}
+								}
+							}
+						}
+						vi++
+						sb.WriteString(repl)
+						i++
+						continue
+					}
+					sb.WriteByte(tmpl[i])
+				}
+				out = append(out, grammarUse{call: call, site: site, tmpl: sb.String(), inLoop: blockInLoop(site.Block()) || blockInLoop(call.Block())})
+			}
+		}
+	}
+	return out
+}
+
+// optionalName: outside the named count group, a capture group can match the empty string (the unit name can be left
+// out).
+func optionalName(re *syntax.Regexp) bool {
+	found := false
+	var walk func(r *syntax.Regexp)
+	walk = func(r *syntax.Regexp) {
+		if r.Op == syntax.OpCapture {
+			if r.Name != "" {
+				return
+			}
+			if minLen(r.Sub[0]) == 0 {
+				found = true
+			}
+		}
+		for _, s := range r.Sub {
+			walk(s)
+		}
+	}
+	walk(re)
+	return found
 }
 
 func grammarProblem(re *syntax.Regexp) string {
